@@ -137,6 +137,9 @@ def main(argv=None):
         agg = orch.run_batch(prop, e, tier, seed, share, max_runs)
         confirmed = orch.confirm_crashes(e, prop, seed, agg)
         agg["violations"] += confirmed
+        eng_mod = orch.engine_module(e)
+        if hasattr(eng_mod, "cross_check"):
+            agg["violations"] += eng_mod.cross_check(agg)
         aggs.append(agg)
         harness_errors += agg["harness_errors"]
         for rec in agg["violations"]:
